@@ -75,47 +75,59 @@ def check_case(ctx, case):
     if any(wv > 0 and lam <= 0 for lam, wv in zip(flat, w.ravel().tolist())):
         ctx.count("class:event_in_zero_rate_bin")
     from pbt.props.c06 import plan_draws, counts_of
-    for name, fn, weights, counts, n_act, kind in (
-            ("binary_S", Bn.binary_spatial_test, sp, w.sum(axis=1).tolist(), len(act_cells), "binary"),
-            ("binary_CL", Bn.binary_conditional_likelihood_test, flat, w.ravel().tolist(), len(act_bins), "binary"),
-            ("brier", Br.brier_score_test, flat, w.ravel().tolist(), len(act_bins), "brier")):
-        sims = [[["in", 0.37 + 0.1 * i, 0.5]] * max(n_act, 1) for i in range(nsim)]
-        U, B = plan_draws(weights, sims, n_act, False, True) if n_act else ([[] for _ in range(nsim)], [[] for _ in range(nsim)])
-        if U is None:
-            ctx.count("skipped:unconstructible_draws:" + name)
-            continue
-        o = call(fn, fore, S.catalog(region), num_simulations=nsim, random_numbers=numpy.array(U, dtype=float).reshape(nsim, n_act))
-        if not o.ok:
-            ctx.unexpected(o, name)
-            continue
-        got = float(o.value.observed_statistic)
-        if kind == "binary":
-            want, tol = G.binary_ll(weights, counts)
-            if not G.close(got, want, tol):
-                ctx.violation("%s:observed:%s" % (name, classify_binary(got, weights, counts)), {"got": got, "want": want})
-        else:
-            want = G.brier(weights, counts)
-            if not G.close(got, want, 1e-12):
-                ctx.violation(name + ":observed:mismatch", {"got": got, "want": want})
-        td = list(o.value.test_distribution)
-        for i in range(min(nsim, len(td))):
-            c = counts_of(B[i], len(weights))
-            wv, tol = G.binary_ll(weights, c) if kind == "binary" else (G.brier(weights, c), 1e-12)
-            if not G.close(float(td[i]), wv, tol):
-                ctx.violation(name + ":simulated:mismatch", {"got": float(td[i]), "want": wv})
+    # second phase on the SAME forecast object after scale(x), x a power of two (weights scale exactly, normalised weights and
+    # hence the planned draws are unchanged): scores must be those of the scaled rates
+    phases = [(1.0, "")] + ([(float(case["rescale"]), ":after_scale")] if case.get("rescale") else [])
+    for factor, tag in phases:
+        if tag:
+            osc = call(fore.scale, factor)
+            if not osc.ok:
+                ctx.unexpected(osc, "scale")
                 break
-        # injected numbers may put several events into one bin: the scores depend only on which bins are active
-        if n_act >= 2 and U[0]:
-            U2 = [[row[0]] + row[:-1] for row in U[:1]]          # first draw repeated: one bin holds two events, one active bin fewer
-            o2 = call(fn, fore, S.catalog(region), num_simulations=1, random_numbers=numpy.array(U2, dtype=float).reshape(1, n_act))
-            if not o2.ok:
-                ctx.unexpected(o2, name + ":duplicate_bin_draws")
+            ctx.count("phase_after_scale")
+        sp_f = [x * factor for x in sp]
+        flat_f = [x * factor for x in flat]
+        for name, fn, weights, counts, n_act, kind in (
+                ("binary_S" + tag, Bn.binary_spatial_test, sp_f, w.sum(axis=1).tolist(), len(act_cells), "binary"),
+                ("binary_CL" + tag, Bn.binary_conditional_likelihood_test, flat_f, w.ravel().tolist(), len(act_bins), "binary"),
+                ("brier" + tag, Br.brier_score_test, flat_f, w.ravel().tolist(), len(act_bins), "brier")):
+            sims = [[["in", 0.37 + 0.1 * i, 0.5]] * max(n_act, 1) for i in range(nsim)]
+            U, B = plan_draws(weights, sims, n_act, False, True) if n_act else ([[] for _ in range(nsim)], [[] for _ in range(nsim)])
+            if U is None:
+                ctx.count("skipped:unconstructible_draws:" + name)
+                continue
+            o = call(fn, fore, S.catalog(region), num_simulations=nsim, random_numbers=numpy.array(U, dtype=float).reshape(nsim, n_act))
+            if not o.ok:
+                ctx.unexpected(o, name)
+                continue
+            got = float(o.value.observed_statistic)
+            if kind == "binary":
+                want, tol = G.binary_ll(weights, counts)
+                if not G.close(got, want, tol):
+                    ctx.violation("%s:observed:%s" % (name, classify_binary(got, weights, counts)), {"got": got, "want": want})
             else:
-                c = counts_of([B[0][0]] + B[0][:-1], len(weights))
+                want = G.brier(weights, counts)
+                if not G.close(got, want, 1e-12):
+                    ctx.violation(name + ":observed:mismatch", {"got": got, "want": want})
+            td = list(o.value.test_distribution)
+            for i in range(min(nsim, len(td))):
+                c = counts_of(B[i], len(weights))
                 wv, tol = G.binary_ll(weights, c) if kind == "binary" else (G.brier(weights, c), 1e-12)
-                got2 = float(list(o2.value.test_distribution)[0])
-                if not G.close(got2, wv, tol):
-                    ctx.violation(name + ":simulated:depends_on_event_count_not_activity", {"got": got2, "want": wv, "counts_max": max(c)})
+                if not G.close(float(td[i]), wv, tol):
+                    ctx.violation(name + ":simulated:mismatch", {"got": float(td[i]), "want": wv})
+                    break
+            # injected numbers may put several events into one bin: the scores depend only on which bins are active
+            if n_act >= 2 and U[0]:
+                U2 = [[row[0]] + row[:-1] for row in U[:1]]          # first draw repeated: one bin holds two events, one active bin fewer
+                o2 = call(fn, fore, S.catalog(region), num_simulations=1, random_numbers=numpy.array(U2, dtype=float).reshape(1, n_act))
+                if not o2.ok:
+                    ctx.unexpected(o2, name + ":duplicate_bin_draws")
+                else:
+                    c = counts_of([B[0][0]] + B[0][:-1], len(weights))
+                    wv, tol = G.binary_ll(weights, c) if kind == "binary" else (G.brier(weights, c), 1e-12)
+                    got2 = float(list(o2.value.test_distribution)[0])
+                    if not G.close(got2, wv, tol):
+                        ctx.violation(name + ":simulated:depends_on_event_count_not_activity", {"got": got2, "want": wv, "counts_max": max(c)})
 
 
 def nontrivial(case):
@@ -140,6 +152,8 @@ def cases(draw):
     c = draw(G.setups(max_cells=12, max_mags=4, max_events=40, lo=-9, hi=1))
     c["k"] = "tests"
     c["nsim"] = draw(st.integers(1, 3))
+    if draw(st.booleans()):
+        c["rescale"] = draw(st.sampled_from([0.5, 2.0, 0.25, 8.0]))
     return c
 
 
